@@ -1156,6 +1156,7 @@ func disableRacingProbes(r *vkit.R, id int, g *vkit.Rand, iters int) {
 	}
 	defer func() { close(stop); hw.Wait() }()
 	settleEvery := iters / 3
+	probeWaitExpired := 0
 	for it := 0; it < iters && !h.bad; it++ {
 		if !h.apply(m) {
 			return
@@ -1169,8 +1170,13 @@ func disableRacingProbes(r *vkit.R, id int, g *vkit.Rand, iters int) {
 				runtime.Gosched()
 			}
 		default:
+			if probeWaitExpired >= 3 {
+				break // no probes are coming (judged elsewhere); do not spend a second per iteration on it
+			}
 			n0 := len(h.probes(0))
-			vkit.WaitFor(time.Second, func() bool { return len(h.probes(0)) > n0 })
+			if !vkit.WaitFor(time.Second, func() bool { return len(h.probes(0)) > n0 }) {
+				probeWaitExpired++
+			}
 		}
 		if !h.apply(dis) {
 			return
